@@ -56,6 +56,11 @@
 import PdshVerif.Bridge.Hostlist
 import PdshVerif.Bridge.Cbuf
 import PdshVerif.Bridge.Dsh
+import PdshVerif.Bridge.DshSignals
+import PdshVerif.Bridge.DshSignals2
+import PdshVerif.Bridge.DshExit
+import PdshVerif.Bridge.PcpServerName
+import PdshVerif.Bridge.Pipecmd
 import PdshVerif.Bridge.Mod
 import PdshVerif.Bridge.Rcmd
 import PdshVerif.Bridge.Opt
@@ -205,7 +210,7 @@ end rcmd
 /-! ### round 2b: fragments of large functions, `switch`, recorded effects, `strtol` + `errno` -/
 
 section dsh2
-open PdshVerif.Dsh.Timed PdshVerif.Gen.Fn.Dsh PdshVerif.Bridge.Dsh
+open PdshVerif.Dsh.Timed PdshVerif.Gen.Fn.Dsh PdshVerif.Bridge.Dsh PdshVerif.Bridge.DshSignals PdshVerif.Bridge.DshSignals2 PdshVerif.Bridge.DshExit
 
 theorem wdog_slot (c : Cfg) (now tid : Nat) (h : Host) (hct : c.ct ≤ 2147483647) (hut : c.ut ≤ 2147483647)
     (hs : h.start < 2 ^ 62) (hc : h.conn < 2 ^ 62) :
